@@ -85,6 +85,12 @@ class TCPServer:
                     await self.writer.drain()
                 except (ConnectionError, RuntimeError):
                     await self.protocol.handle(Closed())
+                except asyncio.CancelledError:
+                    # Cancelled (e.g. the graceful timeout has elapsed)
+                    # whilst waiting for the client to read, closing
+                    # would wait for it as well, so abort instead.
+                    self.writer.transport.abort()
+                    raise
         elif isinstance(event, Closed):
             await self._close()
         elif isinstance(event, Updated):
